@@ -19,6 +19,9 @@ def classify(iToken, lObjects):
     iCloseParenthesis = 0
     while iCurrent < iStop:
         iCurrent = utils.find_next_token(iCurrent, lObjects)
+        if not utils.is_item(lObjects, iCurrent):
+            # Nothing left to classify, the closing delimiter is missing
+            break
         if utils.token_is_open_parenthesis(iCurrent, lObjects):
             iOpenParenthesis += 1
         if utils.token_is_close_parenthesis(iCurrent, lObjects):
